@@ -271,6 +271,11 @@ pub fn conclude(cfg: &CheckCfg, mut agg: Agg, scratch: &Path, started: Instant) 
         known_lines.len(),
         violation_lines.len()
     );
+    let not_simulable: u64 = agg.ends.get("not_simulable").copied().unwrap_or(0);
+    if not_simulable * 5 > agg.evaluations {
+        eprintln!("HARNESS-ERROR: {} of {} runs could not be simulated ({:?})", not_simulable, agg.evaluations, agg.inconclusive_reasons.keys().next());
+        return 2;
+    }
     if agg.sigs.len() < 2 || agg.evaluated == 0 {
         eprintln!("HARNESS-ERROR: the run evaluated the property on fewer than 2 distinct cases");
         return 2;
